@@ -734,7 +734,7 @@ class World(object):
             conn = FakeConnection(make_cert((user,) if user is not None else (), eku))
             auth_settings = None
             if groups is not None:
-                auth_settings = [('auth:slugs', {'enabled': 'True', 'url': 'http://slugs/%s' % (
+                auth_settings = [('auth:slugs', {'enabled': 'True', 'url': 'http://slugs/G=%s' % (
                     ','.join(groups))})]
             s = session_mod.KmipSession(self.engine, conn, ('127.0.0.1', 1), name='s-%s' % user,
                                         enable_tls_client_auth=True, auth_settings=auth_settings)
@@ -806,8 +806,9 @@ class _SlugsResponse(object):
 
 def _slugs_get(url, timeout=None):
     assert url.startswith('http://slugs/'), url
-    rest = url[len('http://slugs/'):]
-    groups_part, _, tail = rest.partition('/users/')
+    rest = url[len('http://slugs/G='):]
+    groups_part, sep, tail = rest.partition('/users/')
+    assert sep, url
     if tail.endswith('/groups'):
         groups = [g for g in groups_part.split(',') if g]
         return _SlugsResponse(200, {'groups': groups})
